@@ -15,7 +15,7 @@ from constantly import NamedConstant
 
 from twisted.python._tzhelper import FixedOffsetTimeZone
 from twisted.python.failure import Failure
-from twisted.python.reflect import safe_repr
+from twisted.python.reflect import safe_repr, safe_str
 from ._flatten import aFormatter, flatFormat
 from ._interfaces import LogEvent
 
@@ -320,7 +320,10 @@ def _formatTraceback(failure: Failure) -> str:
     try:
         traceback = failure.getTraceback()
     except BaseException as e:
-        traceback = "(UNABLE TO OBTAIN TRACEBACK FROM EVENT):" + str(e)
+        traceback = "(UNABLE TO OBTAIN TRACEBACK FROM EVENT):" + safe_str(e)
+    if not isinstance(traceback, str):
+        # Whatever was logged as the failure, the result is joined to text.
+        traceback = safe_str(traceback)
     return traceback
 
 
